@@ -43,7 +43,7 @@ FID_DRILL_MIXED = "C08-drill-level-mixing-retypable-and-plain-text"     # bounde
 FID_EQUALS = "C08-P-equals-sign-in-partition-text"
 FID_DRILL_AS_HIVE = "C08-P-drill-levels-with-equals-read-as-hive"
 FID_DOTDOT = "C08-P-drill-dot-segments-escape-root"
-FID_NO_META = "C08-P-single-file-root-ignores-partition-metadata"
+FID_NO_META = "C08-P-partition-metadata-not-passed"
 FID_SCHEME = "C08-P-get-file-scheme-does-not-compare-keys"
 
 
@@ -64,6 +64,7 @@ ISO = z3.Function("isoformat_of_value", VAL, S)              # v.isoformat()
 TEXTVAL = z3.Function("value_of_text_key", S, VAL)           # the Python str object with this text, as a key value
 KIND = z3.Function("kind_of_value", VAL, I)
 NAMES_VALUE = z3.Function("text_names_value", S, VAL, B)     # ORACLE: parsing the text by the kind of v gives v
+DEC = z3.Function("decimal_text_of_int", I, S)               # '%i' % n / f'{n}'  (ASSUMED injective)
 K_INT, K_FLOAT, K_BOOL, K_TS, K_TEXT, K_CAT = range(6)
 KINDS = {K_INT: "int", K_FLOAT: "float", K_BOOL: "bool", K_TS: "timestamp", K_TEXT: "text"}
 
@@ -243,7 +244,7 @@ class SplitV:
 
     def at(self, eng, p, k):
         p.axioms += split_facts(self.z, self.sep)
-        return Custom(TextV(PIECE[self.sep](self.z, k + self.lo)))
+        return Custom(TextV(PIECE[self.sep](self.z, z3.simplify(k + self.lo))))
 
     def getitem(self, eng, p, i, node):
         k = eng.as_int(i)
@@ -433,7 +434,7 @@ class Eng(Engine):
                 x = self.ev1(v.value, p)
                 z = text_of(x)
                 if z is None and isinstance(x, (PyI, PyB)):
-                    z = z3.IntToStr(self.as_int(x))           # decimal text of a non-negative int (positions)
+                    z = DEC(self.as_int(x))                   # decimal text of an int (positions)
                 if z is None and isinstance(x, Custom) and hasattr(x.h, "as_text"):
                     z = x.h.as_text(self, p)
                 if z is None:
@@ -479,8 +480,9 @@ class Eng(Engine):
     def call_named(self, name, selfobj, e, p):
         out = super().call_named(name, selfobj, e, p)
         for q, v in out:
-            if isinstance(q.ctl, tuple) and q.ctl[0] == "raise":
-                q.ghost["pending_raise"] = q.ctl        # s_Return must not turn an exception of an inlined callee into a value
+            if isinstance(q.ctl, tuple) and q.ctl[0] != "ret":
+                q.ghost["pending_raise"] = q.ctl        # s_Return must not turn an exception of an inlined callee (or a path that ended
+                #                                         inside an abstract loop iteration) into a value
         return out
 
     def assign(self, t, v, p):
@@ -564,10 +566,31 @@ def auto_facts(fs):
         if z3.is_app(t):
             fn = table.get(t.decl().name())
             if fn is not None:
-                new = fn(t.arg(0))
+                new = fn(t.arg(0)) + concat_theorems(t.arg(0))
                 out += new
                 work += new
             work += t.children()
+    return out
+
+
+def concat_theorems(x):
+    """THEOREMS of the theory of strings (not assumptions), instantiated as hints: a one-character needle occurs in a concatenation
+    iff it occurs in a part; the last / first character of a concatenation is that of its last / first non-empty part"""
+    out = [z3.Implies(z3.SuffixOf(SL, x), z3.Contains(x, SL)), z3.Implies(z3.PrefixOf(SL, x), z3.Contains(x, SL))]
+    flat = []
+
+    def fl(t):
+        if z3.is_app(t) and t.decl().kind() == z3.Z3_OP_SEQ_CONCAT:
+            for c in t.children():
+                fl(c)
+        else:
+            flat.append(t)
+    fl(x)
+    if len(flat) > 1:
+        for ch in (SL, BS, EQ):
+            out.append(z3.Contains(x, ch) == z3.Or(*[z3.Contains(t, ch) for t in flat]))
+        out.append(z3.Implies(z3.Length(flat[-1]) > 0, z3.SuffixOf(SL, x) == z3.SuffixOf(SL, flat[-1])))
+        out.append(z3.Implies(z3.Length(flat[0]) > 0, z3.PrefixOf(SL, x) == z3.PrefixOf(SL, flat[0])))
     return out
 
 
@@ -789,35 +812,59 @@ class ColList:
     """`columns` (partition_on): NC >= 1 distinct column labels of the frame, position i holds column PCOL(i)"""
     tracked = False
 
+    def __init__(self, lo=0, rev=False):
+        self.lo, self.rev = lo, rev          # columns[lo:] / reversed(...)
+
+    def n(self):
+        return W.NC - self.lo
+
     def len(self, eng, p):
-        return PyI(W.NC)
+        return PyI(self.n())
 
     def truth(self, eng, p):
-        return W.NC > 0
+        return self.n() > 0
+
+    def pos(self, k):
+        return (W.NC - 1 - k) if self.rev else (k + self.lo)
 
     def at(self, eng, p, k):
-        return Custom(NameV(k))
+        return Custom(NameV(z3.simplify(self.pos(k))))
 
     def getitem(self, eng, p, i, node):
         k = eng.as_int(i)
-        eng.oblige(p, "partition_on_columns.columns_index_in_range", "safety", z3.And(0 <= k, k < W.NC), node)
-        return Custom(NameV(k))
+        eng.oblige(p, "partition_on_columns.columns_index_in_range", "safety", z3.And(0 <= k, k < self.n()), node)
+        return self.at(eng, p, k)
+
+    def slice(self, eng, p, lo, hi, node):
+        a = _const(eng, lo) if lo is not None else 0
+        if hi is not None or a is None or a < 0 or self.rev:
+            raise Unsupported("slice of the partition columns")
+        return Custom(ColList(self.lo + a))
+
+    def reversed(self):
+        if self.lo:
+            raise Unsupported("reversed slice")
+        return Custom(ColList(0, not self.rev))
 
     def for_loop(self, eng, p, st):
         """`for column in columns: remaining.remove(column)` on the invariant  removed == {PCOL(k) | k < i}, count == i"""
+        lo = self.lo
+        if self.rev:
+            raise Unsupported("loop over reversed columns")
+
         def inv(q, i, xs):
-            return z3.And(q.ghost["rem:count"] == i, *[z3.Select(q.ghost["rem:arr"], x) == z3.And(0 <= W.IDX(x), W.IDX(x) < i) for x in xs])
+            return z3.And(q.ghost["rem:count"] == i - lo, *[z3.Select(q.ghost["rem:arr"], x) == z3.And(lo <= W.IDX(x), W.IDX(x) < i) for x in xs])
         if "rem:arr" not in p.ghost:
             raise Unsupported("loop over the partition columns before list(data)")
         xE = eng.fresh_int("x_entry")
         pe = p.fork()
         pe.pc += [0 <= xE, xE < W.NCOLS] + W.idx_facts(xE)
-        eng.oblige(pe, "partition_on_columns.remaining.invariant_on_entry", "inv", inv(pe, z3.IntVal(0), [xE]), st,
+        eng.oblige(pe, "partition_on_columns.remaining.invariant_on_entry", "inv", inv(pe, z3.IntVal(lo), [xE]), st,
                    note="before the loop nothing is removed from list(data)")
         n_eff = len(effects(p))
         i, xP = eng.fresh_int("i_column"), eng.fresh_int("x_step")
         body = p.fork()
-        body.pc += [0 <= i, i < W.NC, 0 <= xP, xP < W.NCOLS] + W.idx_facts(xP) + W.pcol_facts(i)
+        body.pc += [lo <= i, i < W.NC, 0 <= xP, xP < W.NCOLS] + W.idx_facts(xP) + W.pcol_facts(i)
         body.ghost["rem:arr"] = z3.Array(f"removed_at_i!{next(eng.counter)}", I, B)
         body.ghost["rem:count"] = eng.fresh_int("removed_count_at_i")
         body.pc.append(inv(body, i, [xP, W.PCOL(i)]))
@@ -878,7 +925,7 @@ class DataV:
             effects(p).append(("groupby", list(args), dict(kw), list(p.pc)))
             by = args[0] if args else kw.get("by")
             # ASSUMED pandas: grouping by a LIST of labels yields tuple keys (one element per label), by one label scalar keys
-            if isinstance(by, Custom) and isinstance(by.h, ColList):
+            if isinstance(by, Custom) and isinstance(by.h, ColList) and by.h.lo == 0 and not by.h.rev:
                 p.ghost["groupby_list"] = True
             elif isinstance(by, Custom) and isinstance(by.h, NameV):
                 p.ghost["groupby_list"] = False
@@ -1056,9 +1103,10 @@ class ChunkList:
                 if r.ctl not in (None, "continue"):
                     raise Unsupported("chunk loop leaves early")
                 r.ctl = None
-                for e in effects(r)[n0:]:
-                    if e[0] != "set_file_path":
-                        raise Unsupported("chunk loop has another effect: " + e[0])
+                ef = effects(r)
+                for k in range(n0, len(ef)):
+                    if ef[k][0] != "set_file_path":
+                        ef[k] = ("per_chunk:" + ef[k][0],) + tuple(ef[k][1:])      # happens once per column chunk
                 for k, v in r.env.items():
                     if k not in _names(st.target) and env0.get(k) is not v:
                         raise Unsupported("chunk loop assigns " + k)
@@ -1129,6 +1177,11 @@ def run_partition_on_columns(ctx, funcs, timeout, hive):
             return [(p, Custom(GroupsV()))]
         raise Unsupported("sorted")
 
+    def h_reversed(eng, p, args, kw, node):
+        if len(args) == 1 and isinstance(args[0], Custom) and isinstance(args[0].h, ColList):
+            return [(p, args[0].h.reversed())]
+        raise Unsupported("reversed of " + type(getattr(args[0], "h", args[0])).__name__)
+
     def h_zip(eng, p, args, kw, node):
         if len(args) == 2:
             return [(p, Custom(ZipV(args[0], args[1])))]
@@ -1187,7 +1240,7 @@ def run_partition_on_columns(ctx, funcs, timeout, hive):
         # contract of make_part_file (writer.py): None iff the frame has no rows
         return [(p, Opt(z3.Bool("make_part_file_returns_None"), Custom(rg)))]
 
-    handlers = {"list": h_list, "sorted": h_sorted, "zip": h_zip, "str%": h_strmod, "join_path": h_join_path, "var:mkdirs": h_mkdirs,
+    handlers = {"list": h_list, "sorted": h_sorted, "zip": h_zip, "reversed": h_reversed, "str%": h_strmod, "join_path": h_join_path, "var:mkdirs": h_mkdirs,
                 "var:open_with": h_open_with, "make_part_file": h_make_part_file, "str": h_str, "with_exit": lambda e, q, st: [q]}
     eng = WEng(funcs=funcs, handlers=handlers, inline=("path_string",), opaque_calls=True)
     p = Path()
@@ -1219,7 +1272,7 @@ def run_partition_on_columns(ctx, funcs, timeout, hive):
             many = solve(pc + [W.NC <= 1], timeout)[0] == PROVED        # this path groups by the list
             one = solve(pc + [W.NC > 1], timeout)[0] == PROVED
             if many:
-                ok = isinstance(by, Custom) and by.h is cols
+                ok = isinstance(by, Custom) and isinstance(by.h, ColList) and by.h.lo == 0 and not by.h.rev
             elif one:
                 ok = isinstance(by, Custom) and isinstance(by.h, NameV) and z3.simplify(by.h.i).eq(z3.IntVal(0))
             else:
@@ -1256,10 +1309,9 @@ def run_partition_on_columns(ctx, funcs, timeout, hive):
                   {"effects": str(kinds)})
             continue
         pose(res, timeout, P + "non_empty_group_is_written", q, [], z3.Not(W.EMPTY(W.g)), "only empty groups are skipped")
-        base = [k for k in kinds if k != "set_file_path"]
-        shape = base in (["mkdirs", "open", "make_part_file", "append"], ["mkdirs", "open", "make_part_file"])
-        trace(res, P + "one_file_per_group", kinds.count("open") == 1 and kinds.count("make_part_file") == 1 and kinds.count("mkdirs") == 1
-              and shape, "per non-empty group: mkdirs once, then exactly one file opened, one make_part_file into it", {"effects": str(kinds)})
+        shape = [k for k in kinds if k.split(":")[-1] in ("mkdirs", "open", "make_part_file")] == ["mkdirs", "open", "make_part_file"]
+        trace(res, P + "one_file_per_group", shape, "per non-empty group: mkdirs once, then exactly one file opened, one make_part_file into it",
+              {"effects": str(kinds)})
         if not shape:
             continue
         mk = ef[kinds.index("mkdirs")]
@@ -1369,7 +1421,7 @@ def run_partition_on_columns(ctx, funcs, timeout, hive):
             trace(res, P + "file_columns_are_the_non_partition_columns", False, "the column selector is list(data) minus the partition columns", {})
         # metadata: every chunk of the returned row group gets file_path = relname; appended once iff not None
         sets = [e for e in ef if e[0] == "set_file_path"]
-        apps = [e for e in ef if e[0] == "append"]
+        apps = [e for e in ef if e[0].endswith("append")]
         isnone = solve(list(q.pc) + [z3.Not(z3.Bool("make_part_file_returns_None"))], timeout)[0] == PROVED
         rg = mp[3]
         if isnone:
@@ -1378,7 +1430,7 @@ def run_partition_on_columns(ctx, funcs, timeout, hive):
             continue
         app = apps[0][2] if apps else None
         app = app.val if isinstance(app, Opt) else app
-        ok = len(apps) == 1 and isinstance(app, Custom) and app.h is rg and kinds[-1] == "append"
+        ok = len(apps) == 1 and apps[0][0] == "append" and isinstance(app, Custom) and app.h is rg and kinds[-1] == "append"
         trace(res, P + "row_group_recorded_exactly_once", ok,
               "the row group returned by make_part_file for this group is appended exactly once to the list that is returned, after its "
               "chunks got their file_path", {"effects": str(kinds)})
@@ -1419,6 +1471,1271 @@ def run_partition_on_columns(ctx, funcs, timeout, hive):
     return res
 
 
+# =================================================================================================================================
+#  util.path_string / val_from_meta / val_to_num / _val_to_num : value-kind lemmas
+# =================================================================================================================================
+BOOLOF = z3.Function("bool_of_value", VAL, B)
+BOOLVAL = z3.Function("value_of_bool", B, VAL)
+INTOF = z3.Function("int_of_value", VAL, I)
+INTVAL = z3.Function("value_of_int", I, VAL)
+NPTYPE = z3.Function("numpy_scalar_type_applied_to_text", S, S, VAL)       # np.dtype(name).type(text)
+NP_OK = z3.Function("numpy_scalar_type_accepts_text", S, S, B)
+INT_OK, FLOAT_OK, TS_OK, TD_OK = (z3.Function(n, S, B) for n in ("int_accepts_text", "float_accepts_text", "pd_Timestamp_accepts_text",
+                                                                 "pd_Timedelta_accepts_text"))
+PARSE_INT = z3.Function("int_of_text", S, I)
+PARSE_FLOAT, PARSE_TS, PARSE_TD, TO_DT = (z3.Function(n, S, VAL) for n in ("float_of_text", "pd_Timestamp_of_text", "pd_Timedelta_of_text",
+                                                                        "pd_to_datetime_PATH_DATE_FMT"))
+K_TSTZ, K_CATINT = 6, 7
+# ASSUMED (validated natively by tools/c08native.py): the partition_columns block util.get_column_metadata writes for a column of the kind
+META = {K_INT: ("int64", "int64"), K_FLOAT: ("float64", "float64"), K_BOOL: ("bool", "bool"), K_TS: ("datetime", "datetime64[ns]"),
+        K_TEXT: ("unicode", "str"), "text(object)": ("unicode", "object"), K_TSTZ: ("datetimetz", "datetime64[us, UTC]"),
+        K_CATINT: ("categorical", "int8")}
+NUMPY_NAMES_OK = {"int64", "float64", "bool", "datetime64[ns]", "str", "object", "int8"}     # np.dtype(name) exists (else TypeError)
+SPECIAL = ["now", "NOW", "TODAY", "", "True", "False", "nan"]
+
+
+def value_facts(v, k):
+    """ASSUMED facts about Python / numpy / pandas text conversions of a NON-NULL value v of kind k (see ASSUMED)"""
+    s = STR(v)
+    if k == K_INT:
+        return [v == INTVAL(INTOF(v)), INT_OK(s), PARSE_INT(s) == INTOF(v), NP_OK(sv("int64"), s), NPTYPE(sv("int64"), s) == v,
+                LOWER(s) != sv("nan")] + [s != sv(x) for x in SPECIAL]
+    if k == K_FLOAT:
+        return [z3.Not(INT_OK(s)), FLOAT_OK(s), PARSE_FLOAT(s) == v, NP_OK(sv("float64"), s), NPTYPE(sv("float64"), s) == v,
+                LOWER(s) != sv("nan")] + [s != sv(x) for x in SPECIAL]
+    if k == K_BOOL:
+        return [v == BOOLVAL(BOOLOF(v)), s == z3.If(BOOLOF(v), sv("True"), sv("False")), LOWER(s) != sv("nan")]
+    if k in (K_TS, K_TSTZ):
+        out = []
+        for t in (ISO(v), s):       # both spellings are accepted by the parsers
+            out += [z3.Not(INT_OK(t)), z3.Not(FLOAT_OK(t)), TS_OK(t), PARSE_TS(t) == v, NP_OK(sv("datetime64[ns]"), t),
+                    NPTYPE(sv("datetime64[ns]"), t) == v, LOWER(t) != sv("nan")] + [t != sv(x) for x in SPECIAL]
+        return out
+    if k == K_TEXT:
+        return [v == TEXTVAL(s)]
+    if k == K_CATINT:
+        return [v == INTVAL(INTOF(v)), INT_OK(s), PARSE_INT(s) == INTOF(v)]
+    return []
+
+
+def kind_axioms(terms):
+    """values of different kinds are different values; instantiated for the terms at hand"""
+    out = []
+    for t in terms:
+        if z3.is_app(t):
+            n = t.decl().name()
+            k = {"value_of_int": K_INT, "value_of_bool": K_BOOL, "value_of_text_key": K_TEXT, "pd_to_datetime_PATH_DATE_FMT": K_TS,
+                 "pd_Timestamp_of_text": K_TS, "float_of_text": K_FLOAT}.get(n)
+            if k is not None:
+                out.append(KIND(t) == k)
+            if n == "value_of_text_key":
+                out.append(STR(t) == t.arg(0))
+    return out
+
+
+class MetaV:
+    tracked = False
+
+    def __init__(self, pandas_type, numpy_type):
+        self.d = {"pandas_type": pandas_type, "numpy_type": numpy_type}
+
+    def truth(self, eng, p):
+        return z3.BoolVal(True)
+
+    def getitem(self, eng, p, i, node):
+        if isinstance(i, Str) and i.s in self.d:
+            return Custom(TextV(sv(self.d[i.s])))
+        raise Unsupported("metadata key")
+
+
+class DTypeV:
+    tracked = False
+
+    def __init__(self, z):
+        self.z = z
+
+    def eq(self, eng, p, other):
+        z = text_of(other)
+        if z is None:
+            raise Unsupported("dtype compared with a non-text")
+        return self.z == z           # ASSUMED: np.dtype(name) == 'bool' iff the name is 'bool' (for the names of the metadata table)
+
+    def attr(self, eng, p, name):
+        if name == "type":
+            return Custom(self)
+        raise Unsupported("dtype." + name)
+
+    def call_method(self, eng, p, name, args, kw, node):
+        if name != "type" or len(args) != 1 or text_of(args[0]) is None:
+            raise Unsupported("dtype." + name)
+        x = text_of(args[0])
+        # ASSUMED numpy: np.str_(x) == x, np.object_(x) is x (never raise); the scalar types produce values of their own kind
+        p.pc += [z3.Implies(z3.Or(self.z == sv("str"), self.z == sv("object")), z3.And(NP_OK(self.z, x), NPTYPE(self.z, x) == TEXTVAL(x)))]
+        p.pc += [z3.Implies(self.z == sv(n), KIND(NPTYPE(self.z, x)) == k) for n, k in (("int64", K_INT), ("int8", K_INT), ("float64", K_FLOAT),
+                                                                                       ("datetime64[ns]", K_TS))]
+        ok, bad = p.fork(NP_OK(self.z, x)), p.fork(z3.Not(NP_OK(self.z, x)))
+        out = []
+        if eng.feasible(ok):
+            out.append((ok, Custom(ResV(NPTYPE(self.z, x)))))
+        if eng.feasible(bad):
+            out += raised(bad, "ValueError")
+        return out
+
+
+class ResV:
+    """a parsed value"""
+    tracked = False
+
+    def __init__(self, v):
+        self.v = v
+
+    def isinstance(self, eng, p, tn):
+        if tn == "str":
+            return KIND(self.v) == K_TEXT
+        raise Unsupported("isinstance(parsed value, " + tn + ")")
+
+
+class TypeV:
+    tracked = False
+
+    def __init__(self, name):
+        self.name = name
+
+    def eq(self, eng, p, other):
+        return z3.BoolVal(isinstance(other, Opaque) and other.tag in ("func:" + self.name, "global:" + self.name))
+
+
+def as_val(eng, v):
+    if isinstance(v, PyB):
+        return BOOLVAL(v.z)
+    if isinstance(v, PyI):
+        return INTVAL(v.z)
+    if text_of(v) is not None:
+        return TEXTVAL(text_of(v))
+    if isinstance(v, Custom) and isinstance(v.h, ResV):
+        return v.h.v
+    return None
+
+
+def value_handlers():
+    def parser(okf, valf, exc="ValueError", wrap=lambda t: Custom(ResV(t))):
+        def h(eng, p, args, kw, node):
+            x = text_of(args[0])
+            if x is None:
+                raise Unsupported("parser applied to a non-text")
+            ok, bad = p.fork(okf(x)), p.fork(z3.Not(okf(x)))
+            out = []
+            if eng.feasible(ok):
+                out.append((ok, wrap(valf(x))))
+            if eng.feasible(bad):
+                out += raised(bad, exc)
+            return out
+        return h
+
+    def h_int(eng, p, args, kw, node):
+        b = kw.get("base", args[1] if len(args) > 1 else PyI(10))
+        if _const(eng, b) != 10:
+            raise Unsupported("int() with another base")
+        return parser(INT_OK, PARSE_INT, wrap=lambda t: PyI(t))(eng, p, args, kw, node)
+
+    def h_dtype(eng, p, args, kw, node):
+        a = args[0]
+        if isinstance(a, Custom) and isinstance(a.h, DTypeV):
+            return [(p, a)]
+        z = text_of(a)
+        if z is None:
+            raise Unsupported("np.dtype of a non-text")
+        zs = z3.simplify(z)
+        if z3.is_string_value(zs) and zs.as_string() not in NUMPY_NAMES_OK:
+            return raised(p, "TypeError")            # ASSUMED numpy: not a dtype name
+        return [(p, Custom(DTypeV(z)))]
+
+    def h_type(eng, p, args, kw, node):
+        if text_of(args[0]) is not None:
+            return [(p, Custom(TypeV("str")))]
+        raise Unsupported("type()")
+    return {"int": h_int, "float": parser(FLOAT_OK, PARSE_FLOAT), "pd.Timestamp": parser(TS_OK, PARSE_TS), "pd.Timedelta": parser(TD_OK, PARSE_TD),
+            "pd.to_datetime": parser(TS_OK, TO_DT), "np.dtype": h_dtype, "type": h_type, "str": h_str}
+
+
+def run_value_kinds(ctx, funcs, timeout):
+    res = Results()
+    v = z3.Const("key_value", VAL)
+    n_ret = 0
+    must_fail = 0
+
+    def texts_of(k):
+        """path_string(v) from the REAL source, for a value of kind k -> [(path, text)]"""
+        eng = Eng(funcs=funcs, handlers=value_handlers(), opaque_calls=True)
+        p = Path()
+        p.pc += [KIND(v) == (K_TS if k == K_TSTZ else K_INT if k == K_CATINT else k)]
+        outs = eng.run("path_string", p, [Custom(ValV(v))])
+        discharge_engine(eng, res, "path_string.", timeout)
+        out = []
+        for q in outs:
+            z = text_of(q.ctl[1]) if q.ctl[0] == "ret" else None
+            trace(res, "path_string.returns_a_text", z is not None, "path_string returns a str for every key value")
+            if z is not None:
+                out.append((q, z))
+        return out
+
+    def run(fn, q0, x, meta):
+        eng = Eng(funcs=funcs, handlers=value_handlers(), inline=("val_from_meta", "_val_to_num"), opaque_calls=True)
+        q = q0.fork()
+        q.ctl = None
+        outs = eng.run(fn, q, [Custom(TextV(x)), meta])
+        return eng, outs
+
+    kinds = [(K_INT, "int"), (K_FLOAT, "float"), (K_BOOL, "bool"), (K_TS, "timestamp"), (K_TEXT, "text"), ("text(object)", "text(object dtype)"),
+             (K_TSTZ, "timestamp tz-aware"), (K_CATINT, "categorical of ints")]
+    for k, kn in kinds:
+        kk = K_TEXT if k == "text(object)" else k
+        for q0, x in texts_of(kk):
+            facts = value_facts(v, kk)
+            # ---- with the partition_columns metadata of the original column -----------------------------------------------------
+            for fn in ("val_to_num", "val_from_meta"):
+                eng, outs = run(fn, q0, x, Custom(MetaV(*META[k])))
+                discharge_engine(eng, res, fn + ".", timeout)
+                for q in outs:
+                    n_ret += 1
+                    name = f"{fn}.roundtrip[{kn}]"
+                    detail = (f"{fn}(path_string(v), partition_columns metadata of v's column) == v: same value, same kind, no exception, for "
+                              f"EVERY non-null {kn} key value")
+                    cs = list(q.pc) + list(q.axioms) + facts
+                    if solve(cs, timeout)[0] == PROVED:
+                        continue                       # infeasible under the library facts (e.g. numpy rejecting str(int))
+                    if q.ctl[0] != "ret":
+                        res.add(name, REFUTED, {"raises": q.ctl[1]}, 0.0, "trace", detail)
+                        continue
+                    r = as_val(eng, q.ctl[1])
+                    if r is None:
+                        res.add(name, REFUTED, {"returns": type(getattr(q.ctl[1], 'h', q.ctl[1])).__name__}, 0.0, "trace", detail)
+                        continue
+                    st, m, secs = solve(cs + kind_axioms([r]) + [z3.Not(r == v)], timeout)
+                    res.add(name, st, {"text": mval(m, x), "kind_of_result": mval(m, KIND(r)), "kind_of_value": mval(m, KIND(v))} if m is not None else None,
+                            secs, "z3", detail)
+                    if solve(cs + kind_axioms([r]) + [r == v], timeout)[0] == REFUTED and k == K_INT:
+                        must_fail += 1 if solve(cs + kind_axioms([r, TEXTVAL(x)]) + [z3.Not(r != TEXTVAL(x))], timeout)[0] == PROVED else 0
+            # ---- without metadata --------------------------------------------------------------------------------------------------
+            if k in ("text(object)", K_TSTZ, K_CATINT):
+                continue
+            eng, outs = run("val_to_num", q0, x, NONE)
+            discharge_engine(eng, res, "val_to_num.", timeout)
+            for q in outs:
+                cs = list(q.pc) + list(q.axioms) + facts
+                if solve(cs, timeout)[0] == PROVED:
+                    continue
+                name = f"val_to_num.generic_retyping_roundtrip[no metadata, {kn}]"
+                detail = (f"WITHOUT metadata (drill levels; hive datasets without a partition_columns block): val_to_num(path_string(v)) == v for a "
+                          f"{kn} key value")
+                if q.ctl[0] != "ret":
+                    res.add(name, REFUTED, {"raises": q.ctl[1]}, 0.0, "trace", detail)
+                    continue
+                r = as_val(eng, q.ctl[1])
+                if k == K_TEXT:
+                    # text: the exact region in which the text survives
+                    plain = [z3.Not(INT_OK(x)), z3.Not(FLOAT_OK(x)), z3.Not(TS_OK(x)), z3.Not(TD_OK(x)), x != sv("True"), x != sv("False")]
+                    st, m, secs = solve(cs + kind_axioms([r]) + plain + [z3.Not(r == v)], timeout)
+                    res.add("val_to_num.text_stays_text[no metadata, text that no parser accepts]", st, None, secs, "z3",
+                            "a text that is not 'True'/'False' and that int(), float(), pd.Timestamp() and pd.Timedelta() all reject comes back unchanged")
+                    st, m, secs = solve(cs + kind_axioms([r]) + [z3.Not(r == v)], timeout)
+                    res.add("val_to_num.text_stays_text[no metadata, any text]", st,
+                            {"int() accepts the text": mval(m, INT_OK(x)), "float() accepts": mval(m, FLOAT_OK(x)), "kind_of_result": mval(m, KIND(r))} if m is not None else None,
+                            secs, "z3", "WITHOUT metadata a text key value comes back as the same text (numeric-looking text included)")
+                    continue
+                st, m, secs = solve(cs + kind_axioms([r]) + [z3.Not(r == v)], timeout)
+                res.add(name, st, {"text": mval(m, x)} if m is not None else None, secs, "z3", detail)
+    # ---- lemmas about an ARBITRARY directory text (used as cuts by the read-side runs) -------------------------------------------------
+    x = z3.String("directory_text")
+    STRING_META = ("string", "object")        # the literal api._path_to_cats substitutes once a key has produced a str
+    for k, kn, textlike in [(K_INT, "int", False), (K_FLOAT, "float", False), (K_BOOL, "bool", False), (K_TS, "timestamp", False),
+                            (K_TEXT, "text", True), ("text(object)", "text(object dtype)", True), (K_CATINT, "categorical", True),
+                            ("string", "_path_to_cats string literal", True)]:
+        eng, outs = run("val_to_num", Path(), x, Custom(MetaV(*(STRING_META if k == "string" else META[k]))))
+        discharge_engine(eng, res, "val_to_num.", timeout)
+        for q in outs:
+            cs = list(q.pc) + list(q.axioms)
+            if textlike:
+                name = f"val_from_meta.text_metadata_returns_the_text[{kn}]"
+                detail = "for ANY directory text x: the result is x itself (a str), no exception"
+                if q.ctl[0] != "ret":
+                    res.add(name, REFUTED, {"raises": q.ctl[1]}, 0.0, "trace", detail)
+                    continue
+                r = as_val(eng, q.ctl[1])
+                st, m, secs = solve(cs + kind_axioms([r]) + [z3.Not(r == TEXTVAL(x))], timeout) if r is not None else (REFUTED, None, 0.0)
+                res.add(name, st, None, secs, "z3", detail)
+            else:
+                name = f"val_from_meta.never_a_text_for_non_text_metadata[{kn}]"
+                detail = "for ANY directory text x: whatever is returned is not a str (so api._path_to_cats never switches this key to its string literal)"
+                if q.ctl[0] != "ret":
+                    continue
+                r = as_val(eng, q.ctl[1])
+                st, m, secs = solve(cs + kind_axioms([r]) + [z3.Not(KIND(r) != K_TEXT)], timeout) if r is not None else (REFUTED, None, 0.0)
+                res.add(name, st, {"text": mval(m, x)} if m is not None else None, secs, "z3", detail)
+    if must_fail:
+        ctx.vacuity["must_fail_sat"] += 1
+    else:
+        ctx.engine_error("value kinds vacuity: 'an int key comes back as its text' is not refutable")
+    ctx.vacuity["covers"] += n_ret
+    return res
+
+
+# =================================================================================================================================
+#  read side: api._strip_path_tail / paths_to_cats / _path_to_cats, core.read_row_group (partition block)
+# =================================================================================================================================
+
+
+class R:
+    N, D = z3.Int("n_row_groups"), z3.Int("n_directory_levels")
+    j0, iL, kW = z3.Int("row_group_witness"), z3.Int("level_witness"), z3.Int("key_position_witness")
+    PATHT = z3.Function("RelativePathOfRowGroup", I, S)
+    KEYN = z3.Function("PartitionColumnNameAtLevel", I, S)
+    TXT = z3.Function("ValueTextOfRowGroupAtLevel", I, I, S)
+    MID = z3.Function("MetadataOfKey", S, I)                    # 0: partition_meta has no entry for the key
+    TEXTLIKE = z3.Function("MetadataIsOfATextOrCategoricalColumn", I, B)
+    VALNUM = z3.Function("val_to_num", S, I, VAL)
+    VN_OK = z3.Function("val_to_num_does_not_raise", S, I, B)
+    STRMETA = 1                                                  # the literal {'pandas_type': 'string', 'numpy_type': 'object'}
+
+    @staticmethod
+    def dirz(j):
+        return DIRNAME(R.PATHT(j))
+
+    @staticmethod
+    def lvl(j, i):
+        """level i of the DIRECTORY text of row group j (what _path_to_cats splits)"""
+        return PIECE["/"](R.dirz(j), z3.simplify(i))
+
+    @staticmethod
+    def keyfn(scheme, i):
+        return R.KEYN(i) if scheme == "hive" else z3.Concat(sv("dir"), DEC(i))
+
+    @staticmethod
+    def path_hyps(j):
+        z = R.PATHT(j)
+        return [z3.Contains(z, SL), NPIECES["/"](z) == R.D + 1, R.D >= 1, z3.Length(R.dirz(j)) > 0] + dirname_facts(z)
+
+    @staticmethod
+    def level_hyps(scheme, written_as, j, i, no_eq_in_text=True):
+        """what the WRITER established (partition_on_columns[...].level_*): level i of every path is name_i=text (hive) / text (drill);
+        `no_eq_in_text`: the value text has no '=' (the complementary region is a finding)"""
+        L = R.lvl(j, i)
+        out = [dirname_piece_fact(R.PATHT(j), i)] + split_facts(L, "=")
+        if written_as == "hive":
+            out += [L == z3.Concat(R.KEYN(i), EQ, R.TXT(j, i)), z3.Not(z3.Contains(R.KEYN(i), EQ)), z3.Length(R.KEYN(i)) > 0]
+            out += split2_facts(L, "=", R.KEYN(i), R.TXT(j, i))
+            out += [z3.Contains(L, EQ) == z3.BoolVal(True)]
+        else:
+            out += [L == R.TXT(j, i)]
+        if no_eq_in_text:
+            out += [z3.Not(z3.Contains(R.TXT(j, i), EQ))]
+        return out
+
+
+class PathsV:
+    """the file paths of the row groups, as given to paths_to_cats: N texts (none of them None: multi-file dataset)"""
+    tracked = False
+
+    def len(self, eng, p):
+        return PyI(R.N)
+
+    def nonempty(self, eng, p):
+        return R.N > 0
+
+    def arbitrary(self, eng, p):
+        p.pc += [0 <= R.j0, R.j0 < R.N]
+        return Custom(TextV(R.PATHT(R.j0)))
+
+
+def base_of(comp):
+    guards, c = [], comp
+    while isinstance(c, AbstractComp):
+        guards.append(c.guard)
+        c = c.coll.h if isinstance(c.coll, Custom) else None
+    return guards, c
+
+
+class WComp(AbstractComp):
+    """a comprehension over an abstract collection, evaluated at the witness member; emptiness facts in both (universal) directions"""
+
+    def nonempty(self, eng, p):
+        guards, base = base_of(self)
+        if all(z3.is_true(z3.simplify(g)) for g in guards) and base is not None and hasattr(base, "nonempty"):
+            return base.nonempty(eng, p)
+        key = ("nonempty", id(self))
+        if key in p.opq:
+            return p.opq[key]
+        r = eng.fresh("comprehension_nonempty", B)
+        p.opq[key] = r
+        g = z3.And(*guards)
+        bn = base.nonempty(eng, p) if base is not None and hasattr(base, "nonempty") else z3.BoolVal(True)
+        p.axioms.append(z3.Implies(z3.And(bn, g), r))          # the witness member passes the filter => not empty
+        p.axioms.append(z3.Implies(r, bn))
+        # not empty => SOME member passes the filter: a fresh member (existential elimination); the scenario's universally
+        # quantified hypotheses are instantiated at it
+        inst = p.ghost.get("hyp_at")
+        if inst is not None:
+            js, is_ = eng.fresh_int("some_row_group"), eng.fresh_int("some_level")
+            g2 = z3.substitute(g, (R.j0, js), (R.iL, is_))
+            p.axioms.append(z3.Implies(r, z3.And(g2, *inst(js, is_))))
+        return r
+
+    def truth(self, eng, p):
+        return self.nonempty(eng, p)
+
+    def for_loop(self, eng, p, st):
+        fn = p.ghost.get("inner_loop")
+        if fn is None:
+            raise Unsupported("loop over a comprehension")
+        return fn(eng, p, st, self)
+
+
+class REng(Eng):
+    def e_ListComp(self, e, p):
+        out = super().e_ListComp(e, p)
+        for q, v in out:
+            if isinstance(v, Custom) and type(v.h) is AbstractComp:
+                v.h.__class__ = WComp
+        return out
+
+    e_GeneratorExp = e_ListComp
+    e_SetComp = e_ListComp
+
+
+class GhostSet:
+    """set(): 'st' = string_types (texts), 'seen' = (key, val) pairs; the role is fixed by the first item that reaches it"""
+    tracked = False
+
+    def __init__(self):
+        self.role = None
+
+    def _role(self, item):
+        r = "st" if text_of(item) is not None else "seen" if isinstance(item, Tup) and len(item.items) == 2 and all(text_of(x) is not None for x in item.items) else None
+        if r is None or (self.role not in (None, r)):
+            raise Unsupported("set item")
+        self.role = r
+        return r
+
+    def contains(self, eng, p, item):
+        r = self._role(item)
+        if r == "st":
+            return z3.Select(p.ghost["st"], text_of(item))
+        k, v = [text_of(x) for x in item.items]
+        return z3.Select(z3.Select(p.ghost["seen"], k), v)
+
+    def call_method(self, eng, p, name, args, kw, node):
+        if name != "add" or len(args) != 1:
+            raise Unsupported("set." + name)
+        r = self._role(args[0])
+        if r == "st":
+            p.ghost["st"] = z3.Store(p.ghost["st"], text_of(args[0]), True)
+        else:
+            k, v = [text_of(x) for x in args[0].items]
+            p.ghost["seen"] = z3.Store(p.ghost["seen"], k, z3.Store(z3.Select(p.ghost["seen"], k), v, True))
+        effects(p).append(("set_add", r))
+        return [(p, NONE)]
+
+
+class CatsV:
+    """cats = OrderedDict(): ghost nkeys / keyat (insertion order) / catmem (key -> set of values)"""
+    tracked = False
+
+    def call_method(self, eng, p, name, args, kw, node):
+        if name == "setdefault" and len(args) == 2 and text_of(args[0]) is not None and isinstance(args[1], Custom) and isinstance(args[1].h, GhostSet) \
+                and args[1].h.role is None:
+            key = text_of(args[0])
+            n, ka = p.ghost["nkeys"], p.ghost["keyat"]
+            present = eng.fresh("key_already_present", B)
+            kx = eng.fresh_int("position_of_key")
+            p.pc += [z3.Implies(present, z3.And(0 <= kx, kx < n, z3.Select(ka, kx) == key))]
+            p.pc += p.ghost["inv_at"](p, kx)
+            iw = p.ghost.get("cur_level")
+            if iw is not None:
+                p.pc += [z3.Implies(z3.And(0 <= iw, iw < n, z3.Select(ka, iw) == key), present)]
+            p.ghost["nkeys"] = z3.If(present, n, n + 1)
+            p.ghost["keyat"] = z3.If(present, ka, z3.Store(ka, n, key))
+            effects(p).append(("setdefault", key))
+            return [(p, Custom(CatSet(key)))]
+        if name == "items" and not args:
+            return [(p, Custom(CatsItems()))]
+        raise Unsupported("cats." + name)
+
+
+class CatSet:
+    tracked = False
+
+    def __init__(self, key):
+        self.key = key
+
+    def call_method(self, eng, p, name, args, kw, node):
+        if name != "add" or len(args) != 1:
+            raise Unsupported("category set." + name)
+        v = as_val(eng, args[0])
+        if v is None:
+            raise Unsupported("category value")
+        cm = p.ghost["catmem"]
+        p.ghost["catmem"] = z3.Store(cm, self.key, z3.Store(z3.Select(cm, self.key), v, True))
+        effects(p).append(("cat_add", self.key, v))
+        return [(p, NONE)]
+
+
+class CatsItems:
+    tracked = False
+
+    def nonempty(self, eng, p):
+        return p.ghost["nkeys"] > 0
+
+    def arbitrary(self, eng, p):
+        p.pc += [0 <= R.kW, R.kW < p.ghost["nkeys"]]
+        k = z3.Select(p.ghost["keyat"], R.kW)
+        return Tup([Custom(TextV(k)), Custom(CatSet(k))])
+
+
+class CatList:
+    tracked = False
+
+    def __init__(self, key):
+        self.key = key
+
+
+class CatsOut:
+    tracked = False
+
+    def __init__(self, comp, ghost):
+        self.comp, self.nkeys, self.keyat, self.catmem = comp, ghost["nkeys"], ghost["keyat"], ghost["catmem"]
+
+
+class MetaSel:
+    """partition_meta.get(key)"""
+    tracked = False
+
+    def __init__(self, key):
+        self.key = key
+
+
+class PMetaV:
+    tracked = False
+
+    def truth(self, eng, p):
+        return z3.BoolVal(True)
+
+    def call_method(self, eng, p, name, args, kw, node):
+        if name == "get" and len(args) == 1 and text_of(args[0]) is not None:
+            return [(p, Custom(MetaSel(text_of(args[0]))))]
+        raise Unsupported("partition_meta." + name)
+
+
+def h_val_to_num_cut(eng, p, args, kw, node):
+    """CUT: util.val_to_num by its lemmas (val_from_meta.text_metadata_returns_the_text[*], never_a_text_for_non_text_metadata[*],
+    val_to_num.never_raises[no metadata])"""
+    x = text_of(args[0])
+    sel = args[1] if len(args) > 1 else kw.get("meta", NONE)
+    if x is None:
+        raise Unsupported("val_to_num of a non-text")
+    if isinstance(sel, NoneV):
+        mid = z3.IntVal(0)
+    elif isinstance(sel, Custom) and isinstance(sel.h, DictLit) and {k: getattr(v, "s", None) for k, v in sel.h.d.items()} == \
+            {"pandas_type": "string", "numpy_type": "object"}:
+        mid = z3.IntVal(R.STRMETA)
+    elif isinstance(sel, Custom) and isinstance(sel.h, MetaSel):
+        mid = R.MID(sel.h.key)
+    else:
+        raise Unsupported("val_to_num with another metadata argument")
+    p.pc += [R.TEXTLIKE(R.STRMETA), z3.Not(R.TEXTLIKE(0)),
+             z3.Implies(z3.And(mid != 0, R.TEXTLIKE(mid)), z3.And(R.VN_OK(x, mid), R.VALNUM(x, mid) == TEXTVAL(x))),
+             z3.Implies(z3.And(mid != 0, z3.Not(R.TEXTLIKE(mid))), KIND(R.VALNUM(x, mid)) != K_TEXT),
+             z3.Implies(mid == 0, R.VN_OK(x, mid)), KIND(TEXTVAL(x)) == K_TEXT,
+             z3.Implies(KIND(R.VALNUM(x, 0)) == K_TEXT, R.VALNUM(x, 0) == TEXTVAL(x))]
+    ok, bad = p.fork(R.VN_OK(x, mid)), p.fork(z3.Not(R.VN_OK(x, mid)))
+    out = []
+    if eng.feasible(ok):
+        out.append((ok, Custom(ResV(R.VALNUM(x, mid)))))
+    if eng.feasible(bad):
+        out += raised(bad, "ValueError")
+    return out
+
+
+def dec_facts(fs):
+    """ASSUMED: the decimal text of an int determines the int; it contains neither '=' nor '/' (instantiated for the terms at hand)"""
+    apps, seen = {}, set()
+
+    def walk(t):
+        if t.get_id() in seen:
+            return
+        seen.add(t.get_id())
+        if z3.is_app(t):
+            if t.decl().name() == "decimal_text_of_int":
+                apps[t.get_id()] = t
+            for c in t.children():
+                walk(c)
+    for f in fs:
+        walk(f)
+    apps = list(apps.values())
+    out = [z3.And(z3.Not(z3.Contains(a, EQ)), z3.Not(z3.Contains(a, SL)), z3.Length(a) > 0) for a in apps]
+    for a, b in itertools.combinations(apps, 2):
+        out.append(z3.Implies(z3.Concat(sv("dir"), a) == z3.Concat(sv("dir"), b), a.arg(0) == b.arg(0)))
+        out.append(z3.Implies(a == b, a.arg(0) == b.arg(0)))
+    return out
+
+
+PLAIN = z3.Function("SomeLevelTextOfKeyStaysTextUnderGenericRetyping", S, B)
+
+
+def run_paths_to_cats(ctx, funcs, timeout, written_as, with_meta, clean, homog=True):
+    """one scenario: the dataset was written in the `written_as` layout; partition_columns metadata present for every key or absent;
+    clean: no value text contains '='; homog (no metadata only): the texts of one key are all re-typed or all left as text"""
+    res = Results()
+    tag = f"[{written_as} dataset, {'metadata' if with_meta else 'no metadata'}" + ("" if clean else ", any value text") + \
+        ("" if with_meta or homog or not clean else ", levels may mix re-typable and plain text") + "]"
+    P = "paths_to_cats" + tag + "."
+    state = {}
+
+    def hyp_at(j, i):
+        return R.path_hyps(j) + R.level_hyps(scheme_of(), written_as, j, i, clean) + [0 <= i, i < R.D, 0 <= j, j < R.N]
+
+    def scheme_of():
+        return written_as
+
+    def key_hyps(i, k):
+        """distinct partition column names (ASSUMED: pandas columns of a written frame are distinct)"""
+        return [z3.Implies(R.KEYN(i) == R.KEYN(k), i == k)]
+
+    def new_state(eng, q, why):
+        q.ghost["st"] = z3.Array(f"string_types_{why}!{next(eng.counter)}", S, B)
+        q.ghost["seen"] = z3.Array(f"seen_{why}!{next(eng.counter)}", S, z3.ArraySort(S, B))
+        q.ghost["catmem"] = z3.Array(f"cats_values_{why}!{next(eng.counter)}", S, z3.ArraySort(VAL, B))
+        q.ghost["nkeys"] = eng.fresh_int("n_keys_" + why)
+        q.ghost["keyat"] = z3.Array(f"key_at_{why}!{next(eng.counter)}", I, S)
+
+    def keyfn(i):
+        return R.keyfn(state["scheme"], i)
+
+    def vr(key, val):
+        """what core.read_row_group will look up for this (key, val): val_to_num(val, partition_meta.get(key))"""
+        return R.VALNUM(val, R.MID(key) if with_meta else z3.IntVal(0))
+
+    def inv_at(q, k):
+        """the key-order invariant instantiated at position k"""
+        return [z3.Implies(z3.And(0 <= k, k < q.ghost["nkeys"]), z3.Select(q.ghost["keyat"], k) == keyfn(k))] + \
+            (key_hyps(k, state.get("cur", k)) if state["scheme"] == "hive" else [])
+
+    def vn_facts(x, mid):
+        """CUT facts of val_to_num (see h_val_to_num_cut) for a (text, metadata) pair"""
+        return [R.TEXTLIKE(R.STRMETA), z3.Not(R.TEXTLIKE(0)), KIND(TEXTVAL(x)) == K_TEXT,
+                z3.Implies(z3.And(mid != 0, R.TEXTLIKE(mid)), z3.And(R.VN_OK(x, mid), R.VALNUM(x, mid) == TEXTVAL(x))),
+                z3.Implies(z3.And(mid != 0, z3.Not(R.TEXTLIKE(mid))), KIND(R.VALNUM(x, mid)) != K_TEXT),
+                z3.Implies(KIND(R.VALNUM(x, 0)) == K_TEXT, R.VALNUM(x, 0) == TEXTVAL(x)),
+                R.VALNUM(x, R.STRMETA) == TEXTVAL(x)]
+
+    def plain_facts(key, val):
+        """no metadata: PLAIN(key) <=> some text of the key stays text; homogeneous scenario: then ALL of them do"""
+        out = [z3.Implies(KIND(R.VALNUM(val, 0)) == K_TEXT, PLAIN(key))]
+        if homog:
+            out.append(z3.Implies(PLAIN(key), KIND(R.VALNUM(val, 0)) == K_TEXT))
+        return out
+
+    def invariants(q, k, key, val, i):
+        """INV: key order (position k), string_types only holds keys with text-like metadata (key), seen => recorded (key, val),
+        a key that was seen at level k is in cats (its position is below nkeys)"""
+        out = {"key_order": z3.And(q.ghost["nkeys"] >= 0, q.ghost["nkeys"] <= R.D,
+                                   z3.Implies(z3.And(0 <= k, k < q.ghost["nkeys"]), z3.Select(q.ghost["keyat"], k) == keyfn(k))),
+               "seen_values_are_recorded": z3.Implies(z3.Select(z3.Select(q.ghost["seen"], key), val),
+                                                      z3.Select(z3.Select(q.ghost["catmem"], key), vr(key, val))),
+               "seen_keys_are_present": z3.Implies(z3.And(0 <= k, z3.Select(z3.Select(q.ghost["seen"], keyfn(k)), val)), k < q.ghost["nkeys"])}
+        if with_meta:
+            out["string_types_only_text_keys"] = z3.Implies(z3.Select(q.ghost["st"], key), R.TEXTLIKE(R.MID(key)))
+        else:
+            out["string_types_only_keys_with_a_plain_text"] = z3.Implies(z3.Select(q.ghost["st"], key), PLAIN(key))
+        return out
+
+    def outer_loop(eng, p, st, zipv):
+        """`for path, path_parts in zip(paths, parts)` flattened with the inner loop over the levels: ONE arbitrary (path, level)"""
+        a, b = zipv
+        ga, _ = base_of(a.h)
+        gb, _ = base_of(b.h)
+        # ASSUMED: iterating the same unmodified set twice gives the same order; the two sequences stay aligned iff `parts` drops nothing
+        eng.oblige(p, P + "paths_and_parts_aligned", "post", z3.And(*gb), st,
+                   note="zip(paths, parts): parts was filtered by `if path`; they stay aligned only when no directory text is empty "
+                        "(true for a dataset whose files all sit at the same depth >= 1)")
+        n_eff = len(effects(p))
+        # entry: the invariants hold for the empty state
+        kE, keyE, valE = eng.fresh_int("k_entry"), eng.fresh("key_entry", S), eng.fresh("val_entry", S)
+        for nm, t in invariants(p, kE, keyE, valE, None).items():
+            eng.oblige(p, P + "invariant." + nm + ".on_entry", "inv", t, st, note="loop invariant before the first path")
+        body = p.fork()
+        new_state(eng, body, "at_i")
+        body.ghost["inv_at"] = inv_at
+        body.ghost["inner_loop"] = inner_loop
+        body.ghost["loop_n_eff"] = n_eff
+        outs = []
+        n_pc, n_ax = len(body.pc), len(body.axioms)
+        pa, pb = a.h.arbitrary(eng, body), b.h.arbitrary(eng, body)
+        mem = body.pc[n_pc:]
+        for q in eng.assign(st.target, Tup([pa, pb]), body):
+            for r in eng.block(st.body, [q]):
+                if r.ctl is None or r.ctl == "continue":
+                    r.ctl = ("outer_body_done", None)
+                outs.append(r)
+        ex = p.fork()
+        new_state(eng, ex, "after")
+        # the loops completed: no iteration raised.  For the WITNESS (path, level) every raising path of the body whose branch conditions
+        # do not depend on the loop-carried state is therefore excluded (universal fact instantiated at the witness)
+        ex.pc += mem
+        mem_ids = {c.get_id() for c in mem}
+        for r in outs:
+            if not (isinstance(r.ctl, tuple) and r.ctl[0] == "raise"):
+                continue
+            others = [c for c in r.pc[n_pc:] if c.get_id() not in mem_ids and c.get_id() not in state["assumed"]]
+            if any(_mentions_state(c) for c in others) or not others:
+                continue
+            ex.axioms += [c for c in r.axioms[n_ax:]]
+            ex.pc.append(z3.Not(z3.And(*others)))
+        kS = R.kW
+        for nm, t in invariants(ex, kS, eng.fresh("key_after", S), eng.fresh("val_after", S), None).items():
+            ex.pc.append(t)
+        ex.pc.append(z3.Implies(R.N > 0, ex.ghost["nkeys"] >= state["n_hits"]))    # every path contributes all its (hit) levels, N > 0 paths ran
+        effects(ex).append(("loops_done",))
+        for k in _stored(st.body) | _names(st.target):
+            ex.env[k] = Opaque(("after_loop", k))
+        return outs + [ex]
+
+    def inner_loop(eng, p, st, comp):
+        """`for key, val in hivehits`: the arbitrary level iL of the arbitrary path; position in hivehits == level index when the
+        filter passes every level (hive) / there is no filter (drill)"""
+        guards, base = base_of(comp)
+        n_eff = len(effects(p))
+        body = p.fork()
+        item = comp.arbitrary(eng, body)
+        i = R.iL
+        state["cur"] = i
+        body.ghost["cur_level"] = i
+        c0 = body.ghost["nkeys"] >= i                            # inner invariant: the levels before i were processed in this pass
+        body.pc.append(c0)
+        state["assumed"].add(c0.get_id())
+        outs = []
+        for q in eng.assign(st.target, item, body):
+            if isinstance(q.ctl, tuple) and q.ctl[0] == "raise":
+                outs.append(q)
+                continue
+            key, val = text_of(q.env.get("key")), text_of(q.env.get("val"))
+            if key is None or val is None:
+                raise Unsupported("the loop does not bind key, val to texts")
+            kP = eng.fresh_int("k_step")
+            keyP, valP = eng.fresh("key_step", S), eng.fresh("val_step", S)
+            pre = []
+            for (k_, ky, vl) in ((i, key, val), (kP, keyP, valP), (kP, key, valP), (kP, keyP, val), (i, key, valP), (kP, keyP, val)):
+                pre += list(invariants(q, k_, ky, vl, i).values())
+            pre += vn_facts(val, R.MID(key)) + vn_facts(valP, R.MID(keyP)) + vn_facts(valP, R.MID(key)) + vn_facts(val, R.MID(keyP))
+            pre += [z3.Implies(keyfn(kP) == keyfn(i), kP == i)] if state["scheme"] == "hive" else []
+            if not with_meta:
+                pre += plain_facts(key, val) + plain_facts(keyP, valP) + plain_facts(key, valP) + plain_facts(keyP, val)
+            q.pc += pre
+            state["assumed"] |= {c.get_id() for c in pre}
+            q.ghost["iter_start"] = (len(effects(q)), key, val, dict(st=q.ghost["st"], seen=q.ghost["seen"], catmem=q.ghost["catmem"]))
+            for r in eng.block(st.body, [q]):
+                if isinstance(r.ctl, tuple) and r.ctl[0] in ("raise", "ret"):
+                    outs.append(r)
+                    continue
+                if r.ctl == "break":
+                    raise Unsupported("break in the level loop")
+                r.ctl = None
+                n0_, key0, val0, _ = r.ghost["iter_start"]
+                want_val = R.TXT(R.j0, i) if written_as == state["scheme"] else R.lvl(R.j0, i)
+                eng.oblige(r, P + "level_gives_its_key_and_value_text", "post", z3.And(key0 == keyfn(i), val0 == want_val), st,
+                           note="directory level i yields (key, val) == (" + ("name of partition column i, the text after 'name='" if state["scheme"] == "hive"
+                                                                            else "'dir<i>', the level text") + ") - of THIS path, in directory order")
+                new = effects(r)[n0_:]
+                adds = [e for e in new if e[0] == "cat_add"]
+                okk = all(e[0] in ("set_add", "setdefault", "cat_add") for e in new) and len(adds) <= 1 and len([e for e in new if e[0] == "setdefault"]) == len(adds)
+                eng.oblige(r, P + "a_level_only_adds_to_the_state", "post", z3.BoolVal(okk), st,
+                           note="processing a level only ADDS (seen / string_types / one value under one key of cats): " + str([e[0] for e in new]))
+                for e in adds:
+                    goal = z3.And(e[1] == key0, z3.Or(e[2] == vr(key0, val0), e[2] == TEXTVAL(val0)) if not with_meta else e[2] == vr(key0, val0))
+                    eng.oblige(r, P + "value_added_is_the_parse_of_this_level_under_its_key", "post", goal, st,
+                               note="what is added is val_to_num(val of THIS level) and it is added to cats[key of THIS level]: one category per "
+                                    "distinct directory value, no value filed under another column")
+                for nm, t in invariants(r, kP, keyP, valP, i).items():
+                    eng.oblige(r, P + "invariant." + nm + ".preserved", "inv", t, st,
+                               note="re-established after one level (for ALL keys / pairs: posed at Skolem key, value, position)")
+                eng.oblige(r, P + "invariant.key_order.levels_before_are_present", "inv", r.ghost["nkeys"] >= i + 1, st,
+                           note="after level i the keys of levels 0..i are all in cats")
+                # R4: the value the reader will look up for THIS level is in cats[key] now (and cats only grows)
+                eng.oblige(r, P + "every_directory_value_has_its_category", "post",
+                           z3.Select(z3.Select(r.ghost["catmem"], key), vr(key, val)), st,
+                           note="after a level is processed (added or skipped as seen) cats[key] contains val_to_num(val, partition_meta.get(key)) "
+                                "- the value core.read_row_group computes for a row group in that directory")
+                r.ctl = ("level_done", (key, val))
+                outs.append(r)
+        ex = p.fork()
+        new_state(eng, ex, "after_levels")
+        for nm, t in invariants(ex, R.kW, eng.fresh("key_al", S), eng.fresh("val_al", S), None).items():
+            ex.pc.append(t)
+        ex.pc.append(ex.ghost["nkeys"] >= state["n_hits"])
+        for k in _stored(st.body) | _names(st.target):
+            ex.env[k] = Opaque(("after_loop", k))
+        return outs + [ex]
+
+    def h_zip(eng, p, args, kw, node):
+        if len(args) == 2 and all(isinstance(a, Custom) and isinstance(a.h, AbstractComp) for a in args):
+            return [(p, Custom(ZipR(args, outer_loop)))]
+        raise Unsupported("zip")
+
+    def h_set(eng, p, args, kw, node):
+        if not args:
+            return [(p, Custom(GhostSet()))]
+        v = args[0]
+        if isinstance(v, Custom) and isinstance(v.h, AbstractComp) and isinstance(v.h.elt, PyI):
+            # set of the directory depths: every path has D levels (scenario hypothesis, universally quantified) -> at most one value
+            ne = v.h.nonempty(eng, p)
+            return [(p, Custom(SmallSet(z3.If(ne, 1, 0))))]
+        raise Unsupported("set(...)")
+
+    def h_ordered(eng, p, args, kw, node):
+        if not args:
+            p.ghost["st"] = z3.K(S, z3.BoolVal(False))
+            p.ghost["seen"] = z3.K(S, z3.K(S, z3.BoolVal(False)))
+            p.ghost["catmem"] = z3.K(S, z3.K(VAL, z3.BoolVal(False)))
+            p.ghost["nkeys"] = z3.IntVal(0)
+            p.ghost["keyat"] = z3.K(I, sv(""))
+            state["scheme"] = "hive" if state["attempt"] == 0 else "drill"
+            state["attempt"] += 1
+            # hive attempt: the hits are the levels with '='; they are ALL levels when the dataset was written hive
+            state["n_hits"] = R.D
+            return [(p, Custom(CatsV()))]
+        v = args[0]
+        if isinstance(v, Custom) and isinstance(v.h, AbstractComp):
+            return [(p, Custom(CatsOut(v.h, p.ghost)))]
+        raise Unsupported("OrderedDict(...)")
+
+    def h_list(eng, p, args, kw, node):
+        if args and isinstance(args[0], Custom) and isinstance(args[0].h, CatSet):
+            return [(p, Custom(CatList(args[0].h.key)))]
+        raise Unsupported("list()")
+
+    def h_strmod(eng, p, a, b, node):
+        return None
+
+    state["attempt"] = 0
+    state["assumed"] = set()
+    handlers = {"zip": h_zip, "set": h_set, "OrderedDict": h_ordered, "list": h_list, "val_to_num": h_val_to_num_cut, "str": h_str,
+                "ex_from_sep": lambda e, q, a, k, n: [(q, Opaque("regex"))]}
+    eng = REng(funcs=funcs, handlers=handlers, inline=("_strip_path_tail", "_path_to_cats"), opaque_calls=True)
+    p = Path()
+    p.pc += [R.N >= 0, 0 <= R.iL, R.iL < R.D] + hyp_at(R.j0, R.iL)[:-4] + R.path_hyps(R.j0)
+    p.pc += [R.MID(keyfn_any) != 0 for keyfn_any in ()]
+    p.ghost["witness:/"] = R.iL
+    p.ghost["hyp_at"] = hyp_at
+    if with_meta:
+        # every key the dataset has carries partition_columns metadata, and the writer's texts parse under it (roundtrip lemmas)
+        meta_h = lambda key, val: [R.MID(key) != 0, R.MID(key) != R.STRMETA, R.VN_OK(val, R.MID(key))]
+    else:
+        meta_h = lambda key, val: [R.MID(key) == 0]
+    state["meta_h"] = meta_h
+    K0 = R.KEYN(R.iL)
+    p.pc += meta_h(K0, R.TXT(R.j0, R.iL)) + meta_h(z3.Concat(sv("dir"), DEC(R.iL)), R.lvl(R.j0, R.iL))
+    if solve(list(p.pc) + [R.N > 1, R.D > 1], timeout)[0] == REFUTED:
+        ctx.vacuity["requires_sat"] += 1
+    else:
+        ctx.engine_error("paths_to_cats" + tag + ": scenario hypotheses unsatisfiable")
+    outs = eng.run("paths_to_cats", p, [Custom(PathsV()), Custom(PMetaV()) if with_meta else NONE])
+    extra = lambda ob: dec_facts(list(ob.pc) + [ob.goal])
+    if not clean:
+        eng.oblig = []          # this scenario only asks which layout is detected (the loop obligations belong to the clean scenarios)
+    if not with_meta and not homog:
+        eng.oblig = [ob for ob in eng.oblig if "seen_values_are_recorded.preserved" in ob.name or "every_directory_value_has_its_category" in ob.name]
+    for ob in eng.oblig:
+        ob.axioms = list(ob.axioms) + extra(ob)
+    discharge_engine(eng, res, P, timeout, (R.N, R.D, R.iL, R.PATHT(R.j0), R.lvl(R.j0, R.iL), K0, R.TXT(R.j0, R.iL)))
+    if not with_meta and not homog:
+        return res
+    # ---- outcomes ---------------------------------------------------------------------------------------------------------------
+    def cons(q):
+        cs, ids = [], set()
+        for c in list(q.pc) + list(q.axioms):
+            if c.get_id() not in ids:
+                ids.add(c.get_id())
+                cs.append(c)
+        return cs + dec_facts(cs) + [R.N > 0]
+
+    def scheme_of_ret(q):
+        v = q.ctl[1]
+        return v.items[0].s if isinstance(v, Tup) and len(v.items) == 2 and isinstance(v.items[0], Str) else None
+    want = written_as
+    rets = [q for q in outs if q.ctl[0] == "ret"]
+    wrong = False
+    for q in outs:
+        if q.ctl[0] in ("level_done", "outer_body_done") or (q.ctl[0] == "ret" and scheme_of_ret(q) == want):
+            continue
+        # a raising path / a return with another layout name: must be infeasible for a non-empty dataset of the scenario
+        st_, m, secs = solve(cons(q), timeout)
+        if st_ == PROVED:
+            continue
+        if q.ctl[0] == "ret":
+            mdl = {"scheme returned": scheme_of_ret(q), "level text": mval(m, R.lvl(R.j0, R.iL)), "value text": mval(m, R.TXT(R.j0, R.iL))} if m is not None else None
+            res.add(P + "scheme_detected_is_the_layout_written", st_, mdl, secs, "z3",
+                    f"a non-empty dataset written in the {written_as} layout (every file at depth D >= 1) is recognised as '{written_as}'")
+        else:
+            res.add(P + "does_not_raise", st_, {"exception": str(q.ctl)}, secs, "z3", "paths_to_cats returns for every dataset of the scenario")
+        wrong = True
+        break
+    good = [q for q in rets if scheme_of_ret(q) == want]
+    if not wrong:
+        res.add(P + "scheme_detected_is_the_layout_written", PROVED if good else REFUTED, None, 0.0, "z3",
+                f"a non-empty dataset written in the {written_as} layout (every file at depth D >= 1) is recognised as '{written_as}': every path "
+                "returning another layout name or raising is infeasible")
+    for q in good if clean else []:
+        v = q.ctl[1]
+        out = v.items[1].h if isinstance(v.items[1], Custom) else None
+        if not isinstance(out, CatsOut):
+            trace(res, P + "result_is_every_key_with_its_values", False, "the second component is the dict built from cats", {})
+            continue
+        cs = cons(q)
+        ctx.vacuity["covers"] += 1
+        comp = out.comp
+        ok = z3.is_true(z3.simplify(z3.And(*base_of(comp)[0]))) and isinstance(base_of(comp)[1], CatsItems) and isinstance(comp.elt, Tup) and len(comp.elt.items) == 2
+        trace(res, P + "result_is_every_key_with_its_values", ok, "the dict returned has one entry per key of cats, in cats' (insertion) order, unfiltered")
+        if not ok:
+            continue
+        kz = text_of(comp.elt.items[0])
+        lv = comp.elt.items[1].h if isinstance(comp.elt.items[1], Custom) else None
+        st_, m, secs = solve(cs + [z3.Not(z3.And(out.nkeys == R.D, kz == R.keyfn(written_as, R.kW)))], timeout)
+        res.add(P + "keys_are_the_partition_names_in_directory_order", st_, {"n_keys": mval(m, out.nkeys), "D": mval(m, R.D), "position": mval(m, R.kW), "key": mval(m, kz)} if m is not None else None,
+                secs, "z3", "the result has exactly D keys; the key at position k is " + ("the partition column name of directory level k" if written_as == "hive" else "'dir<k>'"))
+        trace(res, P + "values_of_a_key_are_its_recorded_set", isinstance(lv, CatList) and kz is not None and lv.key.eq(kz),
+              "result[key] == list(cats[key]): the set recorded for THAT key")
+    return res
+
+
+def _unused():
+    rets = []
+    if not rets:
+        res.add(P + "scheme_detected_is_the_layout_written", REFUTED, {"paths": str([q.ctl for q, _ in feas][:4])}, 0.0, "trace",
+                f"a non-empty dataset written in the {written_as} layout is recognised as '{written_as}'")
+    # ---- the arbitrary level (paths ending inside the loops are the 'level_done' records of the attempt that succeeds) ----------------
+    return res
+
+
+STATE_NAMES = ("string_types_", "seen_", "cats_values_", "n_keys_", "key_at_", "key_already_present", "position_of_key")
+
+
+def _mentions_state(c):
+    t = str(c)
+    return any(n in t for n in STATE_NAMES)
+
+
+class ZipR:
+    tracked = False
+
+    def __init__(self, args, loop):
+        self.args, self.loop = args, loop
+
+    def for_loop(self, eng, p, st):
+        return self.loop(eng, p, st, self.args)
+
+
+class SmallSet:
+    tracked = False
+
+    def __init__(self, n):
+        self.n = n
+
+    def len(self, eng, p):
+        return PyI(self.n)
+
+
+# =================================================================================================================================
+#  core.read_row_group: the partition block, for ONE arbitrary row group and ONE arbitrary partition column
+# =================================================================================================================================
+CATSHAS = z3.Function("ValueIsInCategoryListOfKey", S, VAL, B)       # x in cats[key]  (cats as built by paths_to_cats)
+FILEPIECE_KEY = "the file name of a part file is not 'name=...' with name a partition column"
+
+
+def subst_value(v, pairs):
+    if isinstance(v, Custom) and isinstance(v.h, SplitV):
+        return Custom(SplitV(z3.substitute(v.h.z, *pairs), v.h.sep, v.h.lo, v.h.drop_last))
+    if isinstance(v, Custom) and isinstance(v.h, TextV):
+        return Custom(TextV(z3.substitute(v.h.z, *pairs)))
+    if isinstance(v, Tup):
+        return Tup([subst_value(x, pairs) for x in v.items], v.is_list)
+    if isinstance(v, PyI):
+        return PyI(z3.substitute(v.z, *pairs))
+    raise Unsupported("element of a filtered list")
+
+
+class FirstMatchComp(WComp):
+    """[p for p in <list> if <cond>][0]: the FIRST member that satisfies the condition (IndexError if none)"""
+
+    def getitem(self, eng, p, i, node):
+        if _const(eng, i) != 0:
+            raise Unsupported("index into a filtered list")
+        guards, base = base_of(self)
+        r = self.nonempty(eng, p)
+        eng.oblige(p, "read_row_group.partition_level_found", "safety", r, node,
+                   note="[p for p in partitions if p[0] == cat][0]: IndexError unless some level of THIS row group's path has the column as key")
+        p.pc.append(r)
+        f = eng.fresh_int("first_matching_level")
+        w = p.ghost["witness:/"]
+        g = z3.And(*guards)
+        p.pc += [0 <= f, f <= w, z3.substitute(g, (w, f))] + p.ghost["hyp_at"](R.j0, f)
+        return subst_value(self.elt, [(w, f)])
+
+
+class RgR:
+    tracked = False
+
+    def attr(self, eng, p, name):
+        if name == "columns":
+            return Custom(ColsR())
+        raise Unsupported("rg." + name)
+
+
+class ColsR:
+    tracked = False
+
+    def getitem(self, eng, p, i, node):
+        return Custom(ChunkR())
+
+
+class ChunkR:
+    tracked = False
+
+    def attr(self, eng, p, name):
+        if name == "file_path":
+            return Custom(TextV(R.PATHT(R.j0)))
+        raise Unsupported("chunk." + name)
+
+
+class SliceAll:
+    tracked = False
+
+
+class CatsRead:
+    """`cats`: the dict paths_to_cats returned (CUT: keys == partition names in directory order; membership = CATSHAS)"""
+    tracked = False
+
+    def __init__(self, scheme):
+        self.scheme = scheme
+
+    def for_loop(self, eng, p, st):
+        body = p.fork()
+        for k in _stored(st.body) | _names(st.target):
+            body.env[k] = Opaque(("havoc", k))
+        body.pc += [0 <= R.kW, R.kW < R.D]
+        body.ghost["iter0"] = len(effects(body))
+        outs = []
+        for q in eng.assign(st.target, Custom(TextV(R.keyfn(self.scheme, R.kW))), body):
+            for r in eng.block(st.body, [q]):
+                if r.ctl in (None, "continue"):
+                    r.ctl = ("column_done", None)
+                outs.append(r)
+        ex = p.fork()
+        for k in _stored(st.body) | _names(st.target):
+            ex.env[k] = Opaque(("after_loop", k))
+        return outs + [ex]
+
+    def getitem(self, eng, p, i, node):
+        z = text_of(i)
+        if z is None:
+            raise Unsupported("cats[...]")
+        return Custom(CatListR(z))
+
+
+class CatListR:
+    tracked = False
+
+    def __init__(self, key):
+        self.key = key
+
+    def call_method(self, eng, p, name, args, kw, node):
+        if name != "index" or len(args) != 1:
+            raise Unsupported("category list." + name)
+        v = as_val(eng, args[0])
+        if v is None:
+            raise Unsupported("index of a non-value")
+        eng.oblige(p, "read_row_group.category_found", "safety", CATSHAS(self.key, v), node,
+                   note="cats[cat].index(val): ValueError unless the value parsed from this row group's directory is one of the categories "
+                        "paths_to_cats recorded for that column")
+        p.pc.append(CATSHAS(self.key, v))
+        # ASSUMED list.index: the position returned holds an element == the argument
+        return [(p, Custom(CatIndex(self.key, v)))]
+
+
+class CatIndex:
+    tracked = False
+
+    def __init__(self, key, v):
+        self.key, self.v = key, v
+
+
+class AssignV:
+    tracked = False
+
+    def contains(self, eng, p, item):
+        return z3.Bool("partition_column_is_requested")
+
+    def getitem(self, eng, p, i, node):
+        z = text_of(i)
+        if z is None:
+            raise Unsupported("assign[...]")
+        return Custom(AssignArr(z))
+
+
+class AssignArr:
+    tracked = False
+
+    def __init__(self, key):
+        self.key = key
+
+    def setitem(self, eng, p, i, v, node):
+        whole = isinstance(i, Custom) and isinstance(i.h, SliceAll)
+        effects(p).append(("assign", self.key, whole, v))
+
+
+class RREng(REng):
+    def e_Slice(self, e, p):
+        if e.lower is None and e.upper is None and e.step is None:
+            return [(p, Custom(SliceAll()))]
+        return super().e_Slice(e, p)
+
+    def e_ListComp(self, e, p):
+        out = super().e_ListComp(e, p)
+        for q, v in out:
+            if isinstance(v, Custom) and type(v.h) is WComp and e.generators[0].ifs:
+                v.h.__class__ = FirstMatchComp
+        return out
+
+
+def run_read_row_group(ctx, funcs, timeout, scheme, cats_meta, passed_meta):
+    """scheme: layout of the dataset == pf.file_scheme; cats_meta: paths_to_cats had the partition metadata; passed_meta: the caller passes it"""
+    res = Results()
+    tag = f"[{scheme}" + (", partition_meta not passed" if cats_meta and not passed_meta else "" if cats_meta else ", no metadata") + "]"
+    P = "read_row_group" + tag + "."
+
+    def hyp_at(j, i):
+        fp = R.PATHT(j)
+        lvl_full = PIECE["/"](fp, z3.simplify(i))
+        out = R.path_hyps(j) + [z3.Implies(z3.And(0 <= i, i < R.D), z3.And(*R.level_hyps(scheme, scheme, j, i, True)))]
+        out += [z3.Implies(z3.And(0 <= i, i < R.D), z3.And(lvl_full == R.lvl(j, i), z3.Implies(R.KEYN(i) == R.KEYN(R.kW), i == R.kW)))]
+        out += split_facts(lvl_full, "=")
+        # the last piece is the file name
+        out += [z3.Implies(i == R.D, PIECE["="](lvl_full, 0) != R.KEYN(R.kW))]
+        return out + [i <= R.D]
+
+    def h_strmod(eng, p, a, b, node):
+        if a.s == "dir%i" and isinstance(b, (PyI, PyB)):
+            return Custom(TextV(z3.Concat(sv("dir"), DEC(eng.as_int(b)))))
+        return None
+    handlers = {"val_to_num": h_val_to_num_cut, "str%": h_strmod, "str": h_str}
+    eng = RREng(funcs=funcs, handlers=handlers, opaque_calls=True)
+    p = Path()
+    c = R.kW
+    key, txt = R.keyfn(scheme, c), R.TXT(R.j0, c)
+    mid_cats = R.MID(key) if cats_meta else z3.IntVal(0)
+    p.pc += [0 <= R.j0, R.j0 < R.N, R.N > 0, 0 <= c, c < R.D] + hyp_at(R.j0, c)
+    # CUT paths_to_cats[...].every_directory_value_has_its_category (+ keys_are_the_partition_names_in_directory_order)
+    p.pc += [CATSHAS(key, R.VALNUM(txt, mid_cats))]
+    p.pc += ([R.MID(key) != 0, R.MID(key) != R.STRMETA, R.VN_OK(txt, R.MID(key))] if cats_meta else [R.MID(key) == 0])
+    p.ghost["witness:/"] = c
+    p.ghost["hyp_at"] = hyp_at
+    if solve(list(p.pc) + [R.D > 1], timeout)[0] == REFUTED:
+        ctx.vacuity["requires_sat"] += 1
+    else:
+        ctx.engine_error("read_row_group" + tag + ": scenario hypotheses unsatisfiable")
+    outs = eng.run("read_row_group", p, [Opaque("file"), Custom(RgR()), Opaque("columns"), Opaque("categories"), Opaque("schema_helper"),
+                                        Custom(CatsRead(scheme))],
+                   {"assign": Custom(AssignV()), "scheme": Str(scheme), "partition_meta": Custom(PMetaV()) if passed_meta else NONE})
+    for ob in eng.oblig:
+        ob.axioms = list(ob.axioms) + dec_facts(list(ob.pc) + [ob.goal])
+    discharge_engine(eng, res, P, timeout, (R.D, c, R.PATHT(R.j0), key, txt))
+    done = [q for q in outs if isinstance(q.ctl, tuple) and q.ctl[0] == "column_done"]
+    n_done = 0
+    for q in outs:
+        cs = list(q.pc) + list(q.axioms)
+        cs += dec_facts(cs)
+        if isinstance(q.ctl, tuple) and q.ctl[0] == "raise":
+            st_, m, secs = solve(cs, timeout)
+            if st_ != PROVED:
+                res.add(P + "does_not_raise", st_, {"exception": q.ctl[1], "path": mval(m, R.PATHT(R.j0)) if m is not None else None}, secs, "z3",
+                        "no exception for a row group of a dataset of the scenario")
+            continue
+        if q not in done:
+            continue
+        ef = effects(q)[q.ghost["iter0"]:]
+        skipped = solve(cs + [z3.Bool("partition_column_is_requested")], timeout)[0] == PROVED
+        if skipped:
+            trace(res, P + "unrequested_column_untouched", not ef, "a partition column that is not among the output columns is not assigned")
+            continue
+        n_done += 1
+        asg = [e for e in ef if e[0] == "assign"]
+        ok = len(ef) == 1 and len(asg) == 1 and asg[0][2]
+        trace(res, P + "whole_slice_of_the_column_assigned_once", ok, "assign[cat][:] = <one index>: every row of THIS row group's slice gets the same category",
+              {"effects": str([e[0] for e in ef])})
+        if not ok:
+            continue
+        _, akey, _, v = asg[0]
+        ix = v.h if isinstance(v, Custom) and isinstance(v.h, CatIndex) else None
+        trace(res, P + "assigned_code_is_an_index_into_the_columns_categories", ix is not None, "the code assigned is cats[cat].index(<value>)")
+        if ix is None:
+            continue
+        mid_read = R.MID(key) if passed_meta else z3.IntVal(0)
+        st_, m, secs = solve(cs + [z3.Not(z3.And(akey == key, ix.key == key))], timeout)
+        res.add(P + "assigned_to_the_column_itself", st_, None, secs, "z3", "the array written and the category list used are those of the SAME partition column")
+        st_, m, secs = solve(cs + [z3.Not(ix.v == R.VALNUM(txt, mid_read))], timeout)
+        res.add(P + "value_is_parsed_from_own_path_level_of_that_column", st_,
+                {"path": mval(m, R.PATHT(R.j0)), "level": mval(m, c)} if m is not None else None, secs, "z3",
+                "the category is val_to_num(<value text of the directory level whose key is the column, in THIS row group's file_path>, "
+                "partition_meta.get(column)): no other row group's path, no other level")
+    if not n_done:
+        res.add(P + "out_of_reach", UNKNOWN, None, 0.0, "engine", "no completed iteration of the partition-column loop")
+    ctx.vacuity["covers"] += n_done
+    return res
+
+
+def call_site_obligations(ctx, tree_api):
+    """AST obligations: the partition_columns metadata reaches every val_to_num of the read path"""
+    res = Results()
+
+    def calls(fn_node, name):
+        return [n for n in ast.walk(fn_node) if isinstance(n, ast.Call) and ((isinstance(n.func, ast.Name) and n.func.id == name)
+                                                                            or (isinstance(n.func, ast.Attribute) and n.func.attr == name))]
+
+    def is_self_pm(e):
+        return isinstance(e, ast.Attribute) and e.attr == "partition_meta" and isinstance(e.value, ast.Name) and e.value.id == "self"
+    cls = next((n for n in tree_api.body if isinstance(n, ast.ClassDef) and n.name == "ParquetFile"), None)
+    meths = {n.name: n for n in cls.body if isinstance(n, ast.FunctionDef)} if cls else {}
+    for mname in ("_read_partitions", "__init__"):
+        for k, c in enumerate(calls(meths[mname], "paths_to_cats")) if mname in meths else []:
+            arg = c.args[1] if len(c.args) > 1 else next((kw.value for kw in c.keywords if kw.arg == "partition_meta"), None)
+            ok = arg is not None and is_self_pm(arg)
+            res.add(f"ParquetFile.{mname}.paths_to_cats_gets_the_partition_metadata", PROVED if ok else REFUTED,
+                    None if ok else {"argument": ast.unparse(arg) if arg is not None else "(default None)", "line": c.lineno}, 0.0, "ast",
+                    "the categories of a dataset are built with self.partition_meta (else val_to_num re-types generically: numeric-looking "
+                    "text becomes a number)")
+    if "to_pandas" in meths:
+        for c in calls(meths["to_pandas"], "read_row_group_file"):
+            arg = next((kw.value for kw in c.keywords if kw.arg == "partition_meta"), None)
+            ok = arg is not None and is_self_pm(arg)
+            res.add("ParquetFile.to_pandas.read_row_group_file_gets_the_partition_metadata", PROVED if ok else REFUTED, None, 0.0, "ast",
+                    "to_pandas hands self.partition_meta to every row-group read")
+    if "read_row_group_file" in meths:
+        m = meths["read_row_group_file"]
+        for c in calls(m, "read_row_group"):
+            arg = next((kw.value for kw in c.keywords if kw.arg == "partition_meta"), None)
+            fwd = isinstance(arg, ast.Name) and arg.id == "partition_meta"
+            ok = arg is not None and (is_self_pm(arg) or fwd)
+            res.add("ParquetFile.read_row_group_file.forwards_the_partition_metadata", PROVED if ok else REFUTED, None, 0.0, "ast",
+                    "core.read_row_group gets the partition metadata the method was given (or the dataset's own)")
+            # when forwarded: a direct call (documented: `assign is None if this method is called directly`) leaves the parameter at its default
+            names = [a.arg for a in m.args.args]
+            dflt = dict(zip(names[len(names) - len(m.args.defaults):], m.args.defaults)).get("partition_meta")
+            rebinds = any(isinstance(n, ast.Assign) and any(isinstance(t, ast.Name) and t.id == "partition_meta" for t in n.targets) for n in ast.walk(m))
+            ok2 = is_self_pm(arg) or not (isinstance(dflt, ast.Constant) and dflt.value is None) or rebinds
+            res.add("ParquetFile.read_row_group_file.default_is_the_datasets_partition_metadata", PROVED if ok2 else REFUTED,
+                    None if ok2 else {"default": "None", "fallback to self.partition_meta": False}, 0.0, "ast",
+                    "called directly (partition_meta left at its default) the row group is still read with the dataset's partition metadata")
+    return res
+
+
 def check(ctx, timeout):
     u, _, _ = parse_module("fastparquet/util.py")
     w, _, _ = parse_module("fastparquet/writer.py")
@@ -1431,6 +2748,26 @@ def check(ctx, timeout):
     ctx.function("util.path_string", u["path_string"].sha, u["path_string"].report)
     for hive in (True, False):
         out.append(guard("partition_on_columns" + ("[hive]" if hive else "[drill]"), lambda: run_partition_on_columns(ctx, funcs, timeout, hive)))
+    for n in ("val_from_meta", "val_to_num", "_val_to_num"):
+        ctx.function("util." + n, u[n].sha, u[n].report)
+    out.append(guard("val_to_num", lambda: run_value_kinds(ctx, u, timeout)))
+    a, _, _ = parse_module("fastparquet/api.py")
+    af = dict(a)
+    af["_strip_path_tail"] = u["_strip_path_tail"]
+    for n in ("paths_to_cats", "_path_to_cats"):
+        ctx.function("api." + n, a[n].sha, a[n].report)
+    ctx.function("util._strip_path_tail", u["_strip_path_tail"].sha, u["_strip_path_tail"].report)
+    for written_as, with_meta, clean_, homog in (("hive", True, True, True), ("hive", False, True, True), ("hive", True, False, True),
+                                                 ("drill", False, True, True), ("drill", False, True, False), ("drill", False, False, True)):
+        nm = f"paths_to_cats[{written_as},{with_meta},{clean_},{homog}]"
+        out.append(guard(nm, lambda: run_paths_to_cats(ctx, af, timeout, written_as, with_meta, clean_, homog)))
+    c, _, _ = parse_module("fastparquet/core.py")
+    ctx.function("core.read_row_group", c["read_row_group"].sha, c["read_row_group"].report)
+    for scheme, cats_meta, passed in (("hive", True, True), ("hive", True, False), ("hive", False, False), ("drill", False, False)):
+        out.append(guard(f"read_row_group[{scheme},{cats_meta},{passed}]", lambda: run_read_row_group(ctx, c, timeout, scheme, cats_meta, passed)))
+    for n in ("ParquetFile._read_partitions", "ParquetFile.__init__", "ParquetFile.to_pandas", "ParquetFile.read_row_group_file"):
+        ctx.function("api." + n, a[n].sha, a[n].report)
+    out.append(guard("ParquetFile", lambda: call_site_obligations(ctx, parse_module("fastparquet/api.py")[1])))
     return out
 
 
@@ -1443,5 +2780,13 @@ def guard(name, fn):
         r.add(name + ".out_of_reach", UNKNOWN, None, 0.0, "engine", str(ex))
         return r
 
+
+import re as _re
+
+# obligation-name patterns refuted on the unchanged tree <-> recorded findings (props/_paths.py marks them refuted-known)
+KNOWN = [
+    (FID_BACKSLASH, _re.compile(r"^partition_on_columns\[(hive|drill)\]\.level_reaches_the_path_verbatim\[any legal directory name\]$")),
+    (FID_DOTDOT, _re.compile(r"^partition_on_columns\[drill\]\.level_is_not_a_dot_segment\[any value text\]$")),
+]
 
 ASSUMED = []
